@@ -493,15 +493,18 @@ def cleanDescription (p : PartM) : PartM :=
     else if matchEmpty (split1 '\n' d).1 then { p with description := some (rstrip d) }
     else { p with description := some (strip d) }
 
+/-- `if comment_block.description: comment_block.description = comment_block.description.strip()` -/
+def stripDescription : Option Str → Option Str
+  | some d => if d.isEmpty then some d else some (strip d)
+  | none => none
+
 /-- "Finished parsing this comment block." -/
 def finishBlock (st : BSt) : Option BlockM :=
   match st.block with
   | none => none
   | some blk =>
     some { blk with
-      description := (match blk.description with
-        | some d => if d.isEmpty then some d else some (strip d)
-        | none => none),
+      description := stripDescription blk.description,
       tags := blk.tags.map (fun e => (e.1, cleanDescription e.2)),
       params := blk.params.map (fun e => (e.1, cleanDescription e.2)),
       indentation := st.blockIndent }
